@@ -122,3 +122,136 @@ def worker(payload):
         if len(out["samples"]) < 1 and im:
             out["samples"].append({"ops": sc["ops"][:6], "last": {k: v for k, v in im[-1].items() if k in ("o", "t")}})
     return out
+
+
+# ---------------------------------------------------------------------------------------------------------------
+# C08, behavioural: methods that recurse by NAMING a function (`N2(x)` instead of `recurse(x)`), in derivation
+# graphs.  No model here: the oracle is the property itself, evaluated on the real code alone —
+#   within a call dispatched through node n, after a method whose body delegates by `recurse(a)` (resp. by naming
+#   node h) has been entered, everything that follows is exactly what calling node n (resp. node h) with `a` does.
+# (Naming the function one is a method of is the same as `recurse` for that function; in a function that merely
+# inherits the method, the name still means the named function.)
+
+
+class SelfGraphWorld(GraphWorld):
+    def _run(self, Ovld, call_next, recurse):
+        from fnlevel import DepthExceeded, kind_of_exc
+
+        sc = self.sc
+        log, depth, fw = self.log, self.depth, self
+
+        def ENTER(mid, pos, kw):
+            log.append([mid, [fw.canon_val(mid, v) for v in pos]])
+
+        def DOWN():
+            if depth[0] + 1 >= 6:
+                raise DepthExceeded()
+            depth[0] += 1
+
+        def UP():
+            depth[0] -= 1
+
+        glb = {"__name__": "verif_gmod", "ENTER": ENTER, "DOWN": DOWN, "UP": UP, "call_next": call_next, "recurse": recurse}
+        for i, v in enumerate(self.vals):
+            glb[f"C{i}"] = v
+        self.glb = glb
+        fns = {i: self.build_fn(d, glb) for i, d in enumerate(sc["defs"])}
+        nodes = []
+        out = []
+
+        def direct(n, a):
+            del log[:]
+            depth[0] = 0
+            try:
+                r = nodes[n](self.vals[a])
+                o = ["ran", r[1]] if isinstance(r, tuple) and r and r[0] == "ret" else ["returned", repr(r)[:80]]
+            except Exception as e:  # noqa
+                o = kind_of_exc(e)
+            return o, [list(x) for x in log]
+
+        for op in sc["ops"]:
+            try:
+                if op[0] == "create":
+                    if op[1]:
+                        nodes.append(nodes[op[1][0]].copy(mixins=[nodes[m] for m in op[1][1:]], linkback=op[2]))
+                    else:
+                        nodes.append(Ovld(mixins=[], linkback=op[2]))
+                    glb[f"N{len(nodes) - 1}"] = nodes[-1]
+                    out.append({"o": ["ok"]})
+                elif op[0] == "addmix":
+                    nodes[op[1]].add_mixins(*[nodes[m] for m in op[2]])
+                    out.append({"o": ["ok"]})
+                elif op[0] == "reg":
+                    nodes[op[1]].register(fns[op[2]], priority=sc["defs"][op[2]]["prio"])
+                    out.append({"o": ["ok"]})
+                elif op[0] == "unreg":
+                    nodes[op[1]].unregister(fns[op[2]])
+                    out.append({"o": ["ok"]})
+                else:
+                    o, t = direct(op[1], op[2][0])
+                    rec = {"o": o, "t": t, "checks": []}
+                    if True:
+                        cur = op[1]  # the function through which the call at this depth was dispatched
+                        for i, e in enumerate(t):
+                            body = sc["defs"][e[0]]["body"]
+                            if body[0] not in ("recurse", "selfname"):
+                                continue
+                            via = cur
+                            target = cur if body[0] == "recurse" else body[2]
+                            cur = target
+                            o2, t2 = direct(target, body[1][0][1])
+                            rec["checks"].append({"at": i, "method": e[0], "how": body[0], "target": target, "via": via, "arg": body[1][0][1], "rest": t[i + 1:], "direct": t2, "o_direct": o2})
+                    out.append(rec)
+            except Exception as e:  # noqa
+                out.append({"o": kind_of_exc(e), "msg": str(e)[:100]})
+        return out
+
+
+def gen_self_scenario(rng):
+    w, sc = gen_graph_scenario(rng, nnodes=rng.randint(3, 6), recurse_bias=0.55)
+    home = {}
+    for op in sc["ops"]:
+        if op[0] == "reg":
+            home.setdefault(op[2], op[1])
+    # the parent is put to use before the functions derived from it, and afterwards, in both orders
+    for d in sc["defs"]:
+        if d["body"][0] == "recurse" and d["id"] in home and rng.random() < 0.6:
+            d["body"] = ["selfname", d["body"][1], home[d["id"]]]
+    return w, sc
+
+
+def worker_self(payload):
+    seed, n, opts = payload
+    rng = random.Random(seed)
+    out = {"ops": 0, "corr": [], "hist": {}, "samples": [], "oracles": {}}
+    o8 = out["oracles"].setdefault("C08", {"n": 0, "nontrivial": 0, "viol": [], "known": {}})
+
+    def bump(k, v=1):
+        out["hist"][k] = out["hist"].get(k, 0) + v
+
+    for _ in range(n):
+        w, sc = gen_self_scenario(rng)
+        desc = {"world": w.desc, "scenario": sc}
+        im = SelfGraphWorld(w, sc).run()
+        for j, (op, b) in enumerate(zip(sc["ops"], im)):
+            out["ops"] += 1
+            if op[0] != "call":
+                if b["o"] not in (["ok"], ["locked"], ["config"]):
+                    o8["viol"].append({"law": "an operation on a graph of functions with self-naming methods failed", "kind": "graph_self", "op_index": j, "got": b, **desc})
+                continue
+            for c in b.get("checks", []):
+                o8["n"] += 1
+                inherited = c["how"] == "selfname" and c["target"] != c["via"]
+                bump("delegation by " + ("naming the function, from a function that inherits the method" if inherited else "naming the function itself" if c["how"] == "selfname" else "recurse"))
+                if len(c["direct"]) > 1 or inherited:
+                    o8["nontrivial"] += 1
+                outer_o = b["o"]
+                if outer_o == ["depth"]:
+                    # the nesting limit of the harness cut the outer call short: what it did see is how the direct call begins
+                    bad = c["direct"][:len(c["rest"])] != c["rest"]
+                else:
+                    bad = c["rest"] != c["direct"] or (outer_o != c["o_direct"] and outer_o[0] in ("ran", "nomethod", "ambiguous"))
+                if bad:
+                    if len(o8["viol"]) < 8:
+                        o8["viol"].append({"law": "after a method delegated by recurse / by naming a function, what followed is not what calling that function does", "kind": "graph_self", "op_index": j, "check": c, "outcome": outer_o, **desc})
+    return out
